@@ -28,14 +28,14 @@ var (
 
 // error ids in records
 const (
-	ENone = 0
-	ETran = 1
-	EPerm = 2
-	ECtx  = 3
-	ECb   = 4
+	ENone        = 0
+	ETran        = 1
+	EPerm        = 2
+	ECtx         = 3
+	ECb          = 4
 	EMoreThanOne = 5
-	EEmpty = 6
-	EOther = 9
+	EEmpty       = 6
+	EOther       = 9
 )
 
 func ErrID(err error) int {
@@ -65,14 +65,15 @@ type Step struct {
 
 // Src is an instrumented scripted source, usable as iterator (items only) and as stream.
 type Src struct {
-	Script []Step
-	pos    int
-	Taken  int // items handed out
-	Calls  int // Next calls
-	Closes int
+	IgnoreCtx      bool // the source does not look at the context it is given (a closed channel, an in-memory source)
+	Script         []Step
+	pos            int
+	Taken          int // items handed out
+	Calls          int // Next calls
+	Closes         int
 	NextAfterClose int
-	Overlap bool
-	in     atomic.Int32
+	Overlap        bool
+	in             atomic.Int32
 }
 
 func (s *Src) enter() {
@@ -102,7 +103,7 @@ func (s *Src) INext() (int, bool) {
 
 type iterFace struct{ s *Src }
 
-func (f iterFace) Next() (int, bool) { return f.s.INext() }
+func (f iterFace) Next() (int, bool)        { return f.s.INext() }
 func (s *Src) Iter() iterator.Iterator[int] { return iterFace{s} }
 
 // stream face
@@ -113,7 +114,7 @@ func (s *Src) Next(ctx context.Context) (int, error) {
 	if s.Closes > 0 {
 		s.NextAfterClose++
 	}
-	if err := ctx.Err(); err != nil {
+	if err := ctx.Err(); err != nil && !s.IgnoreCtx {
 		return 0, err // an expired context consumes nothing
 	}
 	if s.pos >= len(s.Script) {
@@ -142,14 +143,14 @@ func (s *Src) Close() {
 
 // Params of a combinator instance.
 type Params struct {
-	N    int   // n / chunk size
-	Pred []int // Pred[v-1] = 1 iff keep/while holds for value v
-	Key  []int // same(a,b) iff Key[a-1] == Key[b-1]
-	CbFail int // the CbFail-th callback invocation fails (0 = never) - stream family only
-	Fired  *int // set to 1 when that failure was actually handed to the library
+	N      int   // n / chunk size
+	Pred   []int // Pred[v-1] = 1 iff keep/while holds for value v
+	Key    []int // same(a,b) iff Key[a-1] == Key[b-1]
+	CbFail int   // the CbFail-th callback invocation fails (0 = never) - stream family only
+	Fired  *int  // set to 1 when that failure was actually handed to the library
 }
 
-func (p Params) pred(v int) bool   { return p.Pred[v-1] == 1 }
+func (p Params) pred(v int) bool    { return p.Pred[v-1] == 1 }
 func (p Params) same(a, b int) bool { return p.Key[a-1] == p.Key[b-1] }
 
 type outI = iterator.Iterator[[]int]
@@ -214,13 +215,13 @@ func (c *cb) fail() error {
 
 // Comb describes one combinator in its three families.
 type Comb struct {
-	Name    string
-	Multi   bool // takes several sources
+	Name                            string
+	Multi                           bool // takes several sources
 	UsesN, UsesPred, UsesKey, HasCb bool
-	NMin    int
-	I       func(src []*Src, p Params) outI
-	S       func(src []*Src, p Params) outS
-	L       func(in [][]int, p Params) [][]int // xslices version, nil if none
+	NMin                            int
+	I                               func(src []*Src, p Params) outI
+	S                               func(src []*Src, p Params) outS
+	L                               func(in [][]int, p Params) [][]int // xslices version, nil if none
 }
 
 func srcsI(src []*Src) []iterator.Iterator[int] {
@@ -339,7 +340,9 @@ func Combs() []Comb {
 			L: func(in [][]int, p Params) [][]int { return singles(xslices.Join(in...)) },
 		},
 		{Name: "Map", HasCb: true,
-			I: func(s []*Src, p Params) outI { return scalarsI(iterator.Map(s[0].Iter(), func(x int) int { return x + 10 })) },
+			I: func(s []*Src, p Params) outI {
+				return scalarsI(iterator.Map(s[0].Iter(), func(x int) int { return x + 10 }))
+			},
 			S: func(s []*Src, p Params) outS {
 				c := &cb{p: p}
 				return scalarsS(stream.Map[int, int](s[0], func(_ context.Context, x int) (int, error) {
@@ -349,7 +352,9 @@ func Combs() []Comb {
 					return x + 10, nil
 				}))
 			},
-			L: func(in [][]int, p Params) [][]int { return singles(xslices.Map(in[0], func(x int) int { return x + 10 })) },
+			L: func(in [][]int, p Params) [][]int {
+				return singles(xslices.Map(in[0], func(x int) int { return x + 10 }))
+			},
 		},
 		{Name: "Runs", UsesKey: true,
 			I: func(s []*Src, p Params) outI {
